@@ -179,7 +179,12 @@ func (c *Counter) Add(n int64) {
 			c.releaseReader(state)
 			return
 
-		case state.locked():
+		case state.locked() || state.readers() > 0:
+			// Counter locked, or havePtr was cleared while readers are still
+			// using the old pointer. We must not take the lock in the latter
+			// case: setLocked would overwrite the reader count. Add to extra
+			// instead; the lock holder, or the last reader (see
+			// releaseReader), will flush it.
 			if !c.state.update(&state, state.addExtra(uint64(n))) {
 				continue
 			}
